@@ -189,7 +189,11 @@ func Run(req *Request) *Answer {
 		return ans
 	}
 	w := env.World
-	vsched.Install(req.Plan)
+	plan := req.Plan
+	if plan == nil {
+		plan = vsched.Plan{}
+	}
+	vsched.Install(plan)
 	defer func() {
 		ans.SiteHits = vsched.Hits()
 		vsched.Install(nil)
@@ -314,6 +318,16 @@ func execute(env *Env, wf workflow.ExecutableWorkflow, input any, req *Request, 
 	}
 	go func() {
 		var r result
+		// Observation point: the top-level run starts shutting its steps down. Only in binaries
+		// built with schedule points (tools/instr); sub-workflow runs are on other goroutines.
+		gid := goid()
+		vsched.SetHooks(map[string]func(){
+			"workflow/workflow.go:loopState.terminateAllSteps#0:entry": func() {
+				if goid() == gid {
+					w.Log("shutdown-begin", "", nil)
+				}
+			},
+		})
 		defer func() {
 			if rec := recover(); rec != nil {
 				r.panicked = fmt.Sprintf("%v\n%s", rec, shortStack())
@@ -572,4 +586,14 @@ func sortedStrings(m map[string]bool) []string {
 	}
 	sort.Strings(out)
 	return out
+}
+
+func goid() string {
+	var buf [64]byte
+	n := runtime.Stack(buf[:], false)
+	f := strings.Fields(string(buf[:n]))
+	if len(f) > 1 {
+		return f[1]
+	}
+	return ""
 }
